@@ -28,7 +28,8 @@ class Tokenizer:
     }
     _linesep = '\n'
     unicodesub = re.compile(
-        r'\\(?:([0-9a-fA-F]{1,6})(?:\r\n|[\t\r\n\f\x20])?|[^\n\r\f0-9a-fA-F])'
+        r'\\(?:([0-9a-fA-F]{1,6})(?:\r\n|[\t\r\n\f\x20])?|[^\n\r\f0-9a-fA-F]'
+        r'|(\r\n|[\n\r\f]))'
     ).sub
     cleanstring = re.compile(r'\\((\r\n)|[\n\r\f])').sub
 
@@ -113,13 +114,19 @@ class Tokenizer:
         def _repl(m):
             "used by unicodesub"
             if m.group(1) is None:
-                # simple escape (e.g. an escaped backslash): keep as is
+                # simple escape (e.g. an escaped backslash) or escaped nl: keep as is
                 return m.group(0)
             num = int(m.group(1), 16)
             if num <= sys.maxunicode:
                 return chr(num)
             else:
                 return m.group(0)
+
+        def _replstring(m):
+            "used by unicodesub for strings: removes \\ followed by nl too"
+            if m.group(2) is not None:
+                return ''
+            return _repl(m)
 
         def _normalize(value):
             "normalize and do unicodesub"
@@ -219,10 +226,11 @@ class Tokenizer:
                         ):
                             # may contain unicode escape, replace with normal
                             # char but do not _normalize (?)
-                            value = self.unicodesub(_repl, found)
                             if name in ('STRING', 'INVALID'):  # 'URI'?
                                 # remove \ followed by nl (so escaped) from string
-                                value = self.cleanstring('', value)
+                                value = self.unicodesub(_replstring, found)
+                            else:
+                                value = self.unicodesub(_repl, found)
 
                         else:
                             if 'ATKEYWORD' == name:
